@@ -181,25 +181,29 @@ def cache_mask(o):
 
 
 def pdf_variants(kind, Sig, mu, which=("fresh", "Sigma+Lambda", "Sigma+Lambda+lndet", "sliced_neg", "updated", "queried")):
-    """The same density reached in different ways -> list of (label, builder).  All builders return a density with
-    exactly the components (mu, Sig):
+    """Densities reached in different ways -> list of (label, builder, mu_eff, Sig_eff).
       fresh / Sigma+Lambda / Sigma+Lambda+lndet : the three constructor argument combinations;
       sliced_neg : a larger batch sliced with NEGATIVE indices;
       updated    : built with other parameters, queried, then every component replaced in place by update();
-      queried    : fresh, after second-moment and mass queries."""
-    R = len(mu)
+      queried    : fresh, after second-moment and mass queries;
+    and, for an even number of components R (the effective parameters then differ from (mu, Sig) and are returned):
+      conditioned   : an R/2-component linear conditional conditioned on 2 points (layout r*2+n);
+      prod_linear   : get_density() of [R/2-component density x 2-component LinearFactor], covariance update requested,
+                      the left operand having a cached covariance;
+      prod_constant : the same with a ConstantFactor."""
+    R, D = mu.shape
     out = []
     for w in which:
         if w == "fresh":
-            out.append((w, lambda: mk_pdf(kind, Sig, mu)))
+            out.append((w, lambda: mk_pdf(kind, Sig, mu), mu, Sig))
         elif w in ("Sigma+Lambda", "Sigma+Lambda+lndet"):
-            out.append((w, lambda w=w: mk_pdf(kind, Sig, mu, mode=w)))
+            out.append((w, lambda w=w: mk_pdf(kind, Sig, mu, mode=w), mu, Sig))
         elif w == "sliced_neg":
             def b():
                 S2 = np.concatenate([Sig[:1] * 1.5, Sig], axis=0)
                 m2 = np.concatenate([mu[:1] - 2.0, mu], axis=0)
                 return mk_pdf(kind, S2, m2).slice(jnp.array(list(range(-R, 0))))
-            out.append((w, b))
+            out.append((w, b, mu, Sig))
         elif w == "updated":
             def b():
                 o = mk_pdf(kind, Sig * 2.0, mu + 1.0)
@@ -207,7 +211,7 @@ def pdf_variants(kind, Sig, mu, which=("fresh", "Sigma+Lambda", "Sigma+Lambda+ln
                 o.log_integral()
                 o.update(jnp.arange(R), mk_pdf(kind, Sig, mu))
                 return o
-            out.append((w, b))
+            out.append((w, b, mu, Sig))
         elif w == "queried":
             def b():
                 o = mk_pdf(kind, Sig, mu)
@@ -215,5 +219,27 @@ def pdf_variants(kind, Sig, mu, which=("fresh", "Sigma+Lambda", "Sigma+Lambda+ln
                 o.integrate("x")
                 o.log_integral_light()
                 return o
-            out.append((w, b))
+            out.append((w, b, mu, Sig))
+        elif w == "conditioned" and R % 2 == 0 and R >= 2:
+            Rc = R // 2
+            M = np.array([al.int_matrix(D, D, salt=r) * 0.5 for r in range(Rc)])
+            bb = mu[::2]
+            X = al.points(2, D, salt=1)
+            S_ = Sig[::2]
+            mu_e = np.array([M[r] @ X[n] + bb[r] for r in range(Rc) for n in range(2)])
+            Sig_e = np.array([S_[r] for r in range(Rc) for n in range(2)])
+            ck = "diag" if "Diag" in kind else "full"
+            out.append((w, lambda: mk_cond(ck, M, bb, S_)[0].condition_on_x(J(X)), mu_e, Sig_e))
+        elif w in ("prod_linear", "prod_constant") and R % 2 == 0 and R >= 2:
+            Rc = R // 2
+            S_, m_ = Sig[::2], mu[::2]
+            nuf = np.array([al.int_vector(D, salt=j + 1) * 0.5 for j in range(2)])
+            if w == "prod_linear":
+                mu_e = np.array([m_[r] + S_[r] @ nuf[j] for r in range(Rc) for j in range(2)])
+                mkf = lambda: factor.LinearFactor(nu=J(nuf), ln_beta=J(np.array([0.3, -0.2])))
+            else:
+                mu_e = np.array([m_[r] for r in range(Rc) for j in range(2)])
+                mkf = lambda: factor.ConstantFactor(ln_beta=J(np.array([0.3, -0.2])), num_dim=D)
+            Sig_e = np.array([S_[r] for r in range(Rc) for j in range(2)])
+            out.append((w, lambda mkf=mkf: mk_pdf(kind, S_, m_).multiply(mkf(), update_full=True).get_density(), mu_e, Sig_e))
     return out
